@@ -146,7 +146,8 @@ impl Outcome {
     pub fn short(&self) -> String {
         match self {
             Outcome::Ok(d) => format!("{:032x}", d.total()),
-            Outcome::Panic(m) => format!("panic:{}", m),
+            // (one line: an `assert_eq!` message spans three, and trace lines are compared line by line)
+            Outcome::Panic(m) => format!("panic:{}", m.replace(['\n', '\r'], " ")),
         }
     }
 }
